@@ -102,7 +102,11 @@ class Peer:
 def history_case(res, W, rng, hist, mode, exhaustive):
     so, conn = net.pair()
     peer = Peer(conn, mode)
-    w = W.WebSocket()
+    # every third history runs without the thread-safety locks (enable_multithread=False): same state machine
+    nolock = (len(hist) + sum(map(len, hist))) % 3 == 0
+    w = W.WebSocket(enable_multithread=not nolock)
+    if nolock:
+        res.count("histories_without_locks")
     so.settimeout(1)
     w.sock_opt.timeout = 1
     w.connect("ws://sim.test/", socket=so)
